@@ -264,7 +264,7 @@ DivmodLaw ==
     LET d == PyDivmodDecl(a, b)  back == Add(Mul(d.q, b), d.r)
         rounded == ~IsZero(a) /\ a.s # b.s /\ MagCmp(a, b) = -1      \* r = the double nearest to a + b
     IN /\ Decided(d.r) => (d.r.s = b.s /\ (IsZero(d.r) \/ MagCmp(d.r, b) \in {-1, 0}))
-       /\ (Decided(d.q) /\ Decided(d.r) /\ Decided(back) /\ ~rounded) => Cmp(back, a) = 0
+       /\ (Decided(d.q) /\ Decided(d.r) /\ Decided(back) /\ ~rounded /\ IsFin(Mul(d.q, b))) => Cmp(back, a) = 0   \* (q*b may overflow)
 \* NaN is unordered, otherwise exactly one of < = > ; + and * commute, - anti-commutes
 OrderLaw ==
   op = "lt" => LET c == Cmp(a, b) IN
